@@ -340,13 +340,22 @@ Section Handlers.
   Definition coll_msg (cur refused : bytes) : msg := smsg c_433 [cur; refused] (Some s_inuse).
   (* :irc.example 432 <cur|*> <bad> :Erroneous Nickname *)
   Definition ignore_msg (cur bad : bytes) : msg := smsg c_432 [cur; bad] (Some s_erroneous).
-  (* :irc.example 001 <n> :Welcome to the net <n>!u@host.example *)
-  Definition welcome_msg (n : bytes) : msg :=
-    smsg c_001 [n] (Some (s_welcome ++ n ++ [b_bang] ++ s_user ++ [b_at] ++ s_host)).
-  (* :<old>!u@host.example NICK <new> *)
-  Definition nick_msg (old neu : bytes) : msg :=
-    {| mtags := None; msrc := Some (SrcUser old s_user s_host); verb := c_NICK;
+  (* the user@host a server shows for a client: what it welcomed it with, or a cloak / vhost *)
+  Definition uhost := (bytes * bytes)%type.
+  Definition uh_ok (uh : uhost) : bool := name_ok (fst uh) && name_ok (snd uh).
+  Definition uh_std : uhost := (s_user, s_host).
+  (* :irc.example 001 <n> :Welcome to the net <n>[!<user>@<host>] *)
+  Definition welcome_msg_with (n : bytes) (tail : option uhost) : msg :=
+    smsg c_001 [n] (Some (s_welcome ++ n ++ match tail with
+                                            | Some (u, h) => [b_bang] ++ u ++ [b_at] ++ h
+                                            | None => []
+                                            end)).
+  Definition welcome_msg (n : bytes) : msg := welcome_msg_with n (Some uh_std).
+  (* :<old>!<user>@<host> NICK <new> *)
+  Definition nick_msg_from (old : bytes) (uh : uhost) (neu : bytes) : msg :=
+    {| mtags := None; msrc := Some (SrcUser old (fst uh) (snd uh)); verb := c_NICK;
        middles := [(0%nat, neu)]; trailing := None |}.
+  Definition nick_msg (old neu : bytes) : msg := nick_msg_from old uh_std neu.
 
   (* a nick the server can put in a line: a word without '!' '@' that does not start with ':' *)
   Definition nick_ok (n : bytes) : bool := name_ok n && middle_ok n.
@@ -362,11 +371,14 @@ Section Handlers.
 
   Inductive event :=
   | EColl                         (* 433 for the oldest pending request (registration: collision; later: refusal) *)
-  | EWelcome (n : option bytes)   (* 001 with the nick last requested (None) or a server-assigned one *)
+  | EWelcome (n : option bytes) (tail : option uhost)
+                                  (* 001 with the nick last requested (None) or a server-assigned one; the
+                                     text ends in nick!user@host (Some) or in the bare nick (None) *)
   | EReq (y : bytes)              (* the client's user code calls conn.Nick(y) *)
-  | EConfirm                      (* the oldest pending request is granted: ":cur!u@h NICK x" *)
+  | EConfirm (uh : uhost)         (* the oldest pending request is granted: ":cur!user@host NICK x"; the
+                                     user@host shown is the server's business (welcomed host, cloak, vhost) *)
   | EIgnore                       (* ... is dropped with 432 (no handler in the client) *)
-  | EForce (y : bytes)            (* the server changes the client's nick by itself *)
+  | EForce (y : bytes) (uh : uhost)  (* the server changes the client's nick by itself *)
   | EOther (a b : bytes)          (* another user changes nick from a to b *)
   | ENew (a : bytes)              (* another user appears with nick a (no line) *)
   | ETrack (a : bytes)            (* the tracker learns about user a *)
@@ -394,20 +406,21 @@ Section Handlers.
                | x :: _ => nick_ok x && negb (sv_reg srv && beq x (sv_nick srv))
                | [] => false
                end
-    | EWelcome None => negb (sv_reg srv) &&
+    | EWelcome None tail => negb (sv_reg srv) &&
                        match sv_pending srv with
                        | x :: _ => nick_ok x && negb (in_use srv x)
                        | [] => false
-                       end
-    | EWelcome (Some n) => negb (sv_reg srv) && nick_ok n && negb (in_use srv n)
+                       end && match tail with Some uh => uh_ok uh | None => true end
+    | EWelcome (Some n) tail => negb (sv_reg srv) && nick_ok n && negb (in_use srv n)
+                                && match tail with Some uh => uh_ok uh | None => true end
     | EReq _ => sv_reg srv
-    | EConfirm => sv_reg srv &&
+    | EConfirm uh => sv_reg srv &&
                   match sv_pending srv with
                   | x :: _ => nick_ok x && negb (in_use srv x) && negb (beq x (sv_nick srv))
                   | [] => false
-                  end
+                  end && uh_ok uh
     | EIgnore => match sv_pending srv with _ :: _ => true | [] => false end
-    | EForce y => sv_reg srv && nick_ok y && negb (in_use srv y) && negb (beq y (sv_nick srv))
+    | EForce y uh => sv_reg srv && nick_ok y && negb (in_use srv y) && negb (beq y (sv_nick srv)) && uh_ok uh
     | EOther a b => sv_reg srv && in_use srv a && nick_ok a && nick_ok b
                     && negb (in_use srv b) && negb (beq b (sv_nick srv))
     | ENew a => nick_ok a && negb (in_use srv a) && negb (sv_reg srv && beq a (sv_nick srv))
@@ -425,13 +438,13 @@ Section Handlers.
         | x :: rest => (set_pending srv rest, [InLine (wire (coll_msg (cur_or_star srv) x))])
         | [] => (srv, [])
         end
-    | EWelcome on =>
+    | EWelcome on tail =>
         let n := match on with Some n => n | None => hd [] (sv_pending srv) end in
-        (set_pending (set_current srv n) [], [InLine (wire (welcome_msg n))])
+        (set_pending (set_current srv n) [], [InLine (wire (welcome_msg_with n tail))])
     | EReq y => (srv, [InNick y])
-    | EConfirm =>
+    | EConfirm uh =>
         match sv_pending srv with
-        | x :: rest => (set_pending (set_current srv x) rest, [InLine (wire (nick_msg (sv_nick srv) x))])
+        | x :: rest => (set_pending (set_current srv x) rest, [InLine (wire (nick_msg_from (sv_nick srv) uh x))])
         | [] => (srv, [])
         end
     | EIgnore =>
@@ -440,7 +453,7 @@ Section Handlers.
                         [InLine (wire (ignore_msg (cur_or_star srv) (if nick_ok x then x else s_star)))])
         | [] => (srv, [])
         end
-    | EForce y => (set_current srv y, [InLine (wire (nick_msg (sv_nick srv) y))])
+    | EForce y uh => (set_current srv y, [InLine (wire (nick_msg_from (sv_nick srv) uh y))])
     | EOther a b => (set_others srv (map (fun o => if beq o a then b else o) (sv_others srv)),
                      [InLine (wire (nick_msg a b))])
     | ENew a => (set_others srv (sv_others srv ++ [a]), [])
